@@ -12,6 +12,8 @@ from simkit.pipe import FRONTENDS, open_frontend
 
 ID = "C09"
 LEVEL = "exploration"
+TECHNIQUE = ('deterministic simulation with short_read faults: tape-decided raw read sizes on seven simulated source front ends; oracle = result from io.BytesIO')
+LEVEL_NOTE = ('seeded search over read schedules; blocking sources only')
 RUNS = {"quick": 60000, "thorough": 1500000}
 RULE = ("valid byte strings (real writer and reference encoder; delimited and not; leading empty frames) "
         "delivered through every channel front end under tape-chosen read sizes to every parse entry point; "
